@@ -17,7 +17,7 @@ LEVEL_NOTE = ("Trusted: SimNet FIFO model, reference cost evaluator. A cycle is 
 RULE = ("case = DCOP + algorithm + parameters + schedule + seed; non-trivial = >=1 no-move cycle reached in a DCOP "
         "with >=2 variables and >=1 constraint of arity>=2; distinct by sha1(case)")
 ASSUMPTIONS = c03.ASSUMPTIONS
-BUDGET = {"quick": {"workers": 8, "examples": 450, "seconds": 45},
+BUDGET = {"quick": {"workers": 8, "examples": 1000, "seconds": 45},
           "thorough": {"workers": 16, "examples": 15000, "seconds": 600}}
 
 case_strategy = c03.case_strategy
